@@ -274,6 +274,8 @@ func (d *Driver) runRuleSets() error {
 		inputs = append(inputs, d.mutations("ruleset", "json", jsonFixture, 2000)...)
 	}
 
+	inputs = d.withOverrides("ruleset", inputs)
+
 	ctypeOf := func(in input) string {
 		if strings.Contains(in.id, "/json") {
 			return "application/json"
@@ -296,7 +298,7 @@ func (d *Driver) runRuleSets() error {
 
 		d.emit(Event{Ev: "feed", ID: in.id, Entry: "ruleset", Class: in.class, Outcome: outcome,
 			StateKept: before == after, Alive: alive, Detail: short(detail),
-			Via: "config.ParseRules + rule.SetProcessor.OnCreated"})
+			Via: "config.ParseRules + rule.SetProcessor.OnCreated", Input: b64(in)})
 
 		if outcome != "rejected" {
 			d.unload(b, "c19:fed")
@@ -332,7 +334,7 @@ func (d *Driver) runRuleSets() error {
 
 		d.emit(Event{Ev: "feed", ID: in.id, Entry: "ruleset", Class: in.class, Outcome: outcome,
 			StateKept: before == after, Alive: alive, Detail: short(detail),
-			Via: "config.ParseRules + rule.SetProcessor.OnUpdated"})
+			Via: "config.ParseRules + rule.SetProcessor.OnUpdated", Input: b64(in)})
 
 		if outcome != "rejected" {
 			d.unload(b, "c19:fed")
